@@ -26,9 +26,8 @@ def topoAgrees (g : GridSpec) (st : St) : Bool :=
       let d := g.nbDist i
       a.length == idx.length && (a.zip (idx.zip d)).all (fun p => p.1.1 == p.2.1 && p.1.2.toBits == p.2.2.toBits)
 
-def runFlow (st : St) (c : Call) : St × List String :=
+def runFlowOk (st : St) (c : Call) : St × List String :=
   match c.toks with
-  | "graph" :: _ => callGraph c st
   | "set_mask" :: _ => (st, ["O set_mask ok"])
   | "set_base" :: _ => (st, ["O set_base ok"])
   | "set_param" :: _ => (st, ["O set_param ok"])
@@ -36,6 +35,13 @@ def runFlow (st : St) (c : Call) : St × List String :=
   | "acc" :: _ => (st, callAcc "" c st.topo.n st.g)
   | "basins" :: _ => (st, callBasins "" st.topo.n st.g st.mask st.isBase)
   | _ => (st, ["O model-unsupported"])
+
+def runFlow (st : St) (c : Call) : St × List String :=
+  match c.toks with
+  | "graph" :: _ => callGraph c st
+  | cmd :: _ =>
+    if !st.graphOk then (st, ["O " ++ cmd ++ " nograph"]) else runFlowOk st c
+  | [] => (st, ["O model-unsupported"])
 
 def runCall (d : DSt) (c : Call) : DSt × List String :=
   match c.toks with
